@@ -120,6 +120,37 @@ def logitDenom (shift : α) : List (Res α) → List (Res α) → Res α
 
 def boolNum (b : Bool) : α := if b then (1 : α) else (0 : α)
 
+/-- `Elem`: children = key, then the branches in the order of `keys`; only the selected branch is read -/
+def elemRes (keys : List Int) (rs : List (Res α)) : Res α :=
+  match nth rs 0 with
+  | .error e => .error e
+  | .ok key =>
+    if rs.length ≠ keys.length + 1 then .error .arity else
+    match findKey key keys 0 with
+    | none => .error .keyMissing
+    | some i => nth rs (i + 1)
+
+/-- `LogLogit`: children = choice, then the utilities, then the availabilities (same alternative
+order as `keys`); value V_c − log Σ_{available} exp(V_j − V_c) written as −log Σ exp(V_j − V_c) -/
+def logLogitRes (keys : List Int) (rs : List (Res α)) : Res α :=
+  match nth rs 0 with
+  | .error e => .error e
+  | .ok choice =>
+    if rs.length ≠ 2 * keys.length + 1 then .error .arity else
+    match findKey choice keys 0 with
+    | none => .error .choiceMissing
+    | some i =>
+      match nth rs (1 + keys.length + i) with
+      | .error e => .error e
+      | .ok avc =>
+        if isZero avc then .error .domain else
+        match nth rs (1 + i) with
+        | .error e => .error e
+        | .ok vc =>
+          match logitDenom vc ((rs.drop 1).take keys.length) (rs.drop (1 + keys.length)) with
+          | .error e => .error e
+          | .ok den => .ok (-(Num.log den))
+
 /-- shared part of the three semantics; `divide`, `power`, `powConst`, `log`, `condSum`,
 `var`, `normalCdf`, `belongsTo`, `linUtil` are supplied by the caller where they differ -/
 def semCommon (n : Node α) (env : Env α) (rs : List (Res α)) : Res α :=
@@ -151,28 +182,11 @@ def semCommon (n : Node α) (env : Env α) (rs : List (Res α)) : Res α :=
   | .normalCdf => un rs Num.normalCdf
   | .powConst => un rs fun a => Num.pow a n.value
   | .belongsTo => un rs fun a => boolNum (n.members.any (Num.eq a))
-  | .elem => do
-    let key ← nth rs 0
-    if rs.length ≠ n.keys.length + 1 then .error .arity else
-    match findKey key n.keys 0 with
-    | none => .error .keyMissing
-    | some i => nth rs (i + 1)
+  | .elem => elemRes n.keys rs
   | .multSum => sumRes rs
   | .condSum => condSumRes rs
   | .linUtil => linUtilRes rs
-  | .logLogit => do
-    -- children: choice, then the utilities, then the availabilities (same alternative order)
-    let choice ← nth rs 0
-    let m := n.keys.length
-    if rs.length ≠ 2 * m + 1 then .error .arity else
-    match findKey choice n.keys 0 with
-    | none => .error .choiceMissing
-    | some i => do
-      let avc ← nth rs (1 + m + i)
-      if isZero avc then .error .domain else do
-        let vc ← nth rs (1 + i)
-        let den ← logitDenom vc ((rs.drop 1).take m) (rs.drop (1 + m))
-        pure (-(Num.log den))
+  | .logLogit => logLogitRes n.keys rs
 
 /-- **the mathematical value** -/
 def semMath : Sem α := semCommon
@@ -206,6 +220,13 @@ def semEngine : Sem α := fun n env rs =>
   | .divide => bin rs fun a b => if isZero a then (0 : α) else a / b
   | .powConst => un rs fun a => if isZero n.value then (1 : α) else Num.pow a n.value
   | _ => semCommon n env rs
+
+/-- the engine semantics with the missing-data test of `bioExprVariable`: reading a variable whose
+value equals the code is an error -/
+def semMissing (code : α) : Sem α := fun n env rs =>
+  match n.kind with
+  | .var => if Num.eq (env.var n.name) code then .error .missing else pure (env.var n.name)
+  | _ => semEngine n env rs
 
 /-- evaluation of node `k` with the given per-node semantics -/
 def evalN (sem : Sem α) (d : Dag α) (env : Env α) : Nat → Nat → Res α
